@@ -6,6 +6,7 @@ import (
 	"os"
 	"path/filepath"
 	"regexp"
+	"sort"
 	"strings"
 	"time"
 )
@@ -74,7 +75,7 @@ func (s envSpec) yaml(dir string) string {
 			b.WriteString("      - UNRELATED: x\n")
 		}
 	}
-	b.WriteString("    command:\n      - 'echo \"RESULT N=[$VAL] TN=[$TASK_NAME] P=[$PASSTHRU] C=[$CTXONLY] T=[$TASKONLY]\"'\n")
+	b.WriteString("    command:\n      - 'echo \"RESULT N=[$VAL] TN=[$TASK_NAME] P=[$PASSTHRU] C=[$CTXONLY] T=[$TASKONLY] LC=[$val|$Val|$taskonly|$Ctxonly|$task_name|$fileonly]\"'\n")
 	b.WriteString("pipelines:\n  p:\n    - task: t\n")
 	if has(4) {
 		fmt.Fprintf(&b, "      env:\n        VAL: %q\n", s.vals[4])
@@ -86,7 +87,8 @@ func envCase(col *Collector, s envSpec) {
 	dir := newScratchDir("c09")
 	defer os.RemoveAll(dir)
 	os.WriteFile(filepath.Join(dir, "tasks.yaml"), []byte(s.yaml(dir)), 0644)
-	env := []string{"PASSTHRU=kept as is"}
+	// names that differ from the defined ones only in letter case are different names: they pass through untouched
+	env := []string{"PASSTHRU=kept as is", "val=lc1", "Val=lc2", "taskonly=lc3", "Ctxonly=lc4", "task_name=lc5", "fileonly=lc6"}
 	if s.mask&1 != 0 {
 		env = append(env, "VAL="+s.vals[0])
 	}
@@ -117,12 +119,12 @@ func envCase(col *Collector, s envSpec) {
 		}
 	}
 	cs.Impl = got
-	want := fmt.Sprintf("N=[%s] TN=[t] P=[kept as is] C=[from-context] T=[from-task]", s.expected())
+	want := fmt.Sprintf("N=[%s] TN=[t] P=[kept as is] C=[from-context] T=[from-task] LC=[lc1|lc2|lc3|lc4|lc5|lc6]", s.expected())
 	if s.twoVar && s.mask&32 != 0 {
 		// the second variation does not define the name: the next defining level down applies
 		s2 := s
 		s2.mask &^= 32
-		want2 := fmt.Sprintf("N=[%s] TN=[t] P=[kept as is] C=[from-context] T=[from-task]", s2.expected())
+		want2 := fmt.Sprintf("N=[%s] TN=[t] P=[kept as is] C=[from-context] T=[from-task] LC=[lc1|lc2|lc3|lc4|lc5|lc6]", s2.expected())
 		if got == want && got2 != want2 {
 			cs.Fail, cs.Sig = fmt.Sprintf("second variation (which does not define the name) saw %s, expected %s", got2, want2), "c09-later-variation"
 		}
@@ -262,6 +264,67 @@ func dirCase(col *Collector, s dirSpec) {
 var taskNameRec = regexp.MustCompile(`RESULT who=(\w+) TN=\[([^\]]*)\]`)
 
 // TASK_NAME with several tasks running at the same time on one runner: each command sees its own task's name
+// "the task's dir (after variable substitution)": one task whose dir is a template, run several times in ONE
+// process with different values of the variable - as stages of a chain / parallel stages with their own
+// `variables`, and with the pipeline named twice on the command line
+func dirTemplateHistoryCase(col *Collector, parallelStages bool, k int) {
+	root := newScratchDir("c09t")
+	defer os.RemoveAll(root)
+	trace := filepath.Join(root, "trace")
+	var b strings.Builder
+	fmt.Fprintf(&b, "tasks:\n  t:\n    dir: \"{{.Root}}/pkg/{{.Pkg}}\"\n    variables: {Pkg: p0}\n")
+	fmt.Fprintf(&b, "    before: ['echo $WHO.before=$(/bin/pwd) >> %s']\n    command: ['echo $WHO.cmd=$(/bin/pwd) >> %s']\n    after: ['echo $WHO.after=$(/bin/pwd) >> %s']\n", trace, trace, trace)
+	b.WriteString("pipelines:\n  p:\n")
+	want := map[string]string{}
+	for i := 0; i <= k; i++ {
+		os.MkdirAll(filepath.Join(root, "pkg", fmt.Sprintf("p%d", i)), 0755)
+	}
+	for i := 1; i <= k; i++ {
+		fmt.Fprintf(&b, "    - name: s%d\n      task: t\n      env: {WHO: s%d}\n      variables: {Pkg: p%d}\n", i, i, i)
+		if !parallelStages && i > 1 {
+			fmt.Fprintf(&b, "      depends_on: [s%d]\n", i-1)
+		}
+		want[fmt.Sprintf("s%d", i)] = filepath.Join(root, "pkg", fmt.Sprintf("p%d", i))
+	}
+	// a stage with no variables of its own runs in the directory the task's own value names
+	fmt.Fprintf(&b, "    - name: s0\n      task: t\n      env: {WHO: s0}\n      depends_on: [s%d]\n", k)
+	want["s0"] = filepath.Join(root, "pkg", "p0")
+	os.WriteFile(filepath.Join(root, "tasks.yaml"), []byte(b.String()), 0644)
+	res := runTaskctl(root, []string{"WHO=direct"}, 30*time.Second, "--output", "raw", "p", "t")
+	want["direct"] = filepath.Join(root, "pkg", "p0")
+	cs := Case{Tags: []string{"dir", "dir-template-history"}, NonTrivial: true}
+	cs.Replay = fmt.Sprintf("task t with dir {{.Root}}/pkg/{{.Pkg}} (Pkg=p0) used by %d stages with variables Pkg=p1..p%d (parallel=%v), by a stage with no variables, then run directly: taskctl p t", k, k, parallelStages)
+	got := map[string]string{}
+	// parallel writers may glue one record to the next: cut the records out by their shape, not by line
+	raw, _ := os.ReadFile(trace)
+	for _, m := range regexp.MustCompile(`(direct|s\d+)\.(before|cmd|after)=(/[^\n=]*?/pkg/p\d+)`).FindAllStringSubmatch(string(raw), -1) {
+		got[m[1]+"."+m[2]] = m[3]
+	}
+	var impl []string
+	switch {
+	case res.panicked || res.timedOut || res.exit != 0:
+		cs.Fail, cs.Sig = fmt.Sprintf("taskctl exit=%d timeout=%v: %s", res.exit, res.timedOut, lastLines(res.stderr, 2)), "c09-run-failed"
+	default:
+		var whos []string
+		for w := range want {
+			whos = append(whos, w)
+		}
+		sort.Strings(whos)
+		for _, w := range whos {
+			for _, ph := range []string{"before", "cmd", "after"} {
+				g := got[w+"."+ph]
+				r, _ := filepath.Rel(root, g)
+				impl = append(impl, fmt.Sprintf("%s.%s=%s", w, ph, r))
+				if g != want[w] && cs.Fail == "" {
+					cs.Fail, cs.Sig = fmt.Sprintf("%s of the execution %s ran in %q, its dir template with the variables of that execution gives %q", ph, w, g, want[w]), "c09-dir"
+				}
+			}
+		}
+	}
+	cs.Impl = strings.Join(impl, " ")
+	col.Add(cs)
+}
+
 func taskNameCase(col *Collector, k int, withCtx bool) {
 	dir := newScratchDir("c09t")
 	defer os.RemoveAll(dir)
@@ -380,6 +443,10 @@ func runC09(col *Collector, tier string, seed int64) {
 	for _, k := range []int{2, 3, 6} {
 		taskNameCase(col, k, false)
 		taskNameCase(col, k, true)
+	}
+	for _, k := range []int{2, 3} {
+		dirTemplateHistoryCase(col, false, k)
+		dirTemplateHistoryCase(col, true, k)
 	}
 	col.res.Exhaustive = true
 }
